@@ -10,6 +10,7 @@ import sys
 import time
 from collections import Counter
 from pathlib import Path
+import pathlib
 
 VERIF = Path(__file__).resolve().parent.parent
 LEAN = VERIF / "lean"
@@ -166,6 +167,9 @@ def drv_batch(lines, timeout=1800):
 
 # ------------------------------------------------------------------ run context
 
+ENV_SCALE = float(os.environ.get("VERIF_SCALE", "1"))      # < 1 in the second pass under `python -O`
+
+
 class Ctx:
     def __init__(self, pid, tier, seed, scale=1):
         self.pid, self.tier, self.seed, self.scale = pid, tier, seed, scale
@@ -185,7 +189,7 @@ class Ctx:
         return self.tier == "thorough"
 
     def n(self, quick, thorough):
-        return (thorough if self.thorough else quick) * self.scale
+        return max(1, int((thorough if self.thorough else quick) * self.scale * ENV_SCALE))
 
     def case(self, key=None, nontrivial=False, sample=None, tags=()):
         self.evaluations += 1
@@ -306,6 +310,57 @@ def guarded_run(session, ctx):
         ctx.diff("harness-cannot-interpret-implementation", f"{type(e).__name__}: {e}", dict(traceback=tb[-1500:]))
 
 
+def session_only(pid, session, tier, seed, out):
+    """child mode (the pass under `python -O`): run the session, write what it found as JSON, no verdict, no evidence"""
+    try:
+        import resource
+        lim = int(os.environ.get("VERIF_AS_LIMIT_GB", "6")) << 30
+        resource.setrlimit(resource.RLIMIT_AS, (lim, lim))
+    except Exception:
+        pass
+    ctx = Ctx(pid, tier, seed)
+    guarded_run(session, ctx)
+    pathlib.Path(out).write_text(json.dumps(jsonable(dict(fails=ctx.fails[:10], diffs=ctx.diffs[:10], evaluations=ctx.evaluations,
+                                                          nontrivial=sorted(ctx.nontrivial), dist=dict(ctx.dist), debug=__debug__))))
+    return 0
+
+
+def optimised_pass(pid, tier, seed, ctx):
+    """the same session once more, smaller, in an interpreter started with -O (asserts stripped, __debug__ False): a refusal,
+    a size or a write that lives in an `assert` or behind `if __debug__` exists in one kind of interpreter only, and nothing
+    a property promises may depend on how the interpreter was started"""
+    if os.environ.get("VERIF_NO_OPT_PASS") or not sys.flags.optimize == 0:
+        return
+    import subprocess
+    import tempfile
+    fd, out = tempfile.mkstemp(prefix="vopt", suffix=".json")
+    os.close(fd)
+    env = dict(os.environ, VERIF_SCALE=os.environ.get("VERIF_OPT_SCALE", "0.3"), PYTHONDONTWRITEBYTECODE="1", VERIF_NO_OPT_PASS="1")
+    try:
+        p = subprocess.run([sys.executable, "-O", str(VERIF / "harness" / "check.py"), pid, "--tier", tier, "--seed", str(seed + 104729), "--child-out", out],
+                           env=env, capture_output=True, text=True, timeout=3 * 3600)
+        try:
+            got = json.loads(pathlib.Path(out).read_text())
+        except Exception:
+            ctx.diff("optimised-interpreter", f"the session could not be run under python -O (exit {p.returncode}): {(p.stderr or '')[-400:]}", dict(interpreter="python -O"))
+            return
+    except subprocess.TimeoutExpired:
+        raise Infra("the pass under python -O timed out")
+    finally:
+        try:
+            os.unlink(out)
+        except OSError:
+            pass
+    ctx.evaluations += got["evaluations"]
+    ctx.nontrivial |= set(got["nontrivial"])
+    ctx.dist["interpreter:python -O"] += got["evaluations"]
+    for f in got["fails"]:
+        ctx.fail("[under python -O] " + str(f["what"]), dict(interpreter="python -O", replay=f.get("replay")), ident=f.get("ident"))
+    for d in got["diffs"]:
+        ctx.diff(d["session"], "[under python -O] " + str(d["detail"]), dict(interpreter="python -O", replay=d.get("replay")))
+    ctx.notes.append(f"second pass in an interpreter started with -O (asserts stripped): {got['evaluations']} cases")
+
+
 def run_check(pid, session, tier, seed, replay_path=None):
     """the verdict logic of DESIGN §2.3; returns the process exit code"""
     t0 = time.time()
@@ -328,6 +383,8 @@ def run_check(pid, session, tier, seed, replay_path=None):
         guarded_run(session, ctx)
         if tie:
             tie.stop()
+        if not ctx.fails:
+            optimised_pass(pid, tier, seed, ctx)
     else:
         lean["problems"].append("model driver not built")
         lean["ok"] = False
